@@ -12,6 +12,7 @@ import (
 	"verif/harness/checks/c07"
 	"verif/harness/checks/c08"
 	"verif/harness/checks/c09"
+	"verif/harness/checks/c10"
 	"verif/harness/vf"
 )
 
@@ -25,4 +26,5 @@ var checks = map[string]func(*vf.Check){
 	"C07": c07.Run,
 	"C08": c08.Run,
 	"C09": c09.Run,
+	"C10": c10.Run,
 }
